@@ -22,7 +22,7 @@ import tempfile
 
 sys.path.insert(0, os.path.dirname(os.path.dirname(os.path.abspath(__file__))))
 from vf import evidence, replay, tlc  # noqa: E402
-from vf.clientconn import (MIB10, TIMEOUT, ClientHarness, model_projection, script, standard_scripts,  # noqa: E402
+from vf.clientconn import (MIB10, TIMEOUT, ClientHarness, caller_class, expected_class, model_projection, script, standard_scripts,  # noqa: E402
                            write_mc_module)
 
 OWN = {"C13": {"PromptOnClose", "Faithful", "SegIndep", "Terminates", "ByteFaithful", "Prompt", "Capped"},
@@ -180,7 +180,7 @@ def main(pid, rep=None, finish=True):
             if mismatch or extra_bad:
                 bad = judge_formulas([o for o in obs_seq], None, scr, cfg["tofu"], h) | extra_bad
                 # a caller outcome outside the script's Expected set is SegIndep / Faithful territory
-                if err is None and mismatch and got["caller"] != want["caller"] and got["caller"] != "waiting":
+                if err is None and mismatch and caller_class(got["caller"]) != caller_class(want["caller"]) and got["caller"] != "waiting":
                     bad.add("SegIndep")
                 if err is None and mismatch and got["caller"] == "waiting" and want["caller"] != "waiting" and got["lost"]:
                     bad.add("PromptOnClose")
@@ -412,7 +412,8 @@ def b2_traces(pid, rep, rnd, own, count, overlap=False):
 
         def log(g, act, p=0):
             o = g["h"].project()
-            g["steps"].append({"act": act, "p": p, "sentReq": o["sentReq"], "caller": o["caller"], "cliClosed": o["cliClosed"], "lost": o["lost"]})
+            g["steps"].append({"act": act, "p": p, "sentReq": o["sentReq"], "caller": caller_class(o["caller"]), "cliClosed": o["cliClosed"], "lost": o["lost"],
+                               "_caller": o["caller"]})
         try:
             for g in group:
                 if g["tofu"] != "off":
@@ -451,7 +452,7 @@ def b2_traces(pid, rep, rnd, own, count, overlap=False):
             metas.append(("overlapping " if overlap else "") + repr(g["h"].scr["data"][:70]))
     fd, tpath = tempfile.mkstemp(prefix="vf-cct-", suffix=".json")
     with os.fdopen(fd, "w") as f:
-        json.dump(traces, f)
+        json.dump([{k_: ([{kk: vv for kk, vv in st_.items() if not kk.startswith('_')} for st_ in v_] if k_ == 'steps' else v_) for k_, v_ in t_.items()} for t_ in traces], f)
     try:
         tr, reached = tlc.validate_traces("ClientConnTrace", "ClientConnTrace.cfg", tpath, timeout=1200)
     finally:
@@ -480,8 +481,12 @@ def b2_traces(pid, rep, rnd, own, count, overlap=False):
         elif step is not None:
             # the specification cannot explain the step: request bytes are C11's, the caller's outcome is C13's
             prev = t["steps"][at - 2] if at >= 2 else {"sentReq": t["tofu"] == "off", "caller": "waiting"}
+            final = t["steps"][-1]["caller"]
             formula = "NothingBeforeVerify" if (step["sentReq"] and t["tofu"] in ("changed", "unreadable")) else \
-                ("PromptOnClose" if step["caller"] == "waiting" and step["lost"] else "SegIndep")
+                ("PromptOnClose" if step["caller"] == "waiting" and step["lost"] else
+                 # the way the call ends is the script's business alone: only an ending outside the script's expected class counts
+                 ("SegIndep" if (final not in ("waiting", "error:Timeout", "error:CertificateChanged", "error:CertificateUnreadable")
+                                 and final not in expected_class(t["sc"])) else "-other-"))
             if formula in own:
                 rep.violation({"formula": formula, "trace": True, "rejected": True},
                               "recorded call is not a behaviour of ClientConn: %s" % desc, t)
